@@ -111,6 +111,19 @@ where
             }
         }
     }
+    if oi == 0 && cell % n == 0 {
+        // the conversion methods of the value type are total as well (errors, not panics)
+        if let Err(p) = guard(|| {
+            let _ = (a.clone().to_bool(), a.clone().to_float(), a.clone().to_int(), a.clone().to_float_val(), a.clone().to_array());
+            let _ = (format!("{a:?}").len(), a.clone() == a.clone(), a.partial_cmp(a));
+        }) {
+            return Err(fail(
+                &format!("C17/{ty}/conversion/panic"),
+                format!("Val<{ty}>: a conversion method (to_bool/to_float/to_int/to_float_val/to_array) or comparison of {a:?} panics: {p}"),
+                json!({"type": ty, "operand": format!("{a:?}")}),
+            ));
+        }
+    }
     if st.want_sample() && cell % 977 == 0 {
         st.sample(json!({"type": ty, "operator": op.repr(), "left": format!("{a:?}"), "right": format!("{b:?}")}));
     }
